@@ -98,7 +98,7 @@ def extra_catalogue():
         cat[name] = dict(kind=kind, call=call, when=when,
                          connected_only=connected_only)
     und = lambda d: not d           # noqa: E731
-    add("nsi_betweenness", "node", lambda net: net.nsi_betweenness())
+    add("nsi_betweenness", "node", lambda net: net.nsi_betweenness(), und)
     add("nsi_arenas_betweenness", "node",
         lambda net: net.nsi_arenas_betweenness(), und, connected_only=True)
     add("nsi_newman_betweenness", "node",
